@@ -24,6 +24,16 @@ theorem reqReady_of_reqLeft {k : Call} (h : k.reqLeft = 0) : k.reqReady = true :
 def ShutdownRequested (s : State) : Prop :=
   s.sigReady = true ∨ s.ended = true ∨ s.loopRunning = false
 
+/-- The server's own steps that do not take up anything new: every internal step except the
+completion of an HTTP/2 handshake and the acceptance of a new stream.  Draining a server needs only
+these. -/
+def Label.drains : Label → Bool
+  | .hsDone .. | .callStart .. => false
+  | l => l.internal
+
+theorem Label.drains_internal {l : Label} (h : l.drains = true) : l.internal = true := by
+  cases l <;> simp_all [Label.drains, Label.internal]
+
 theorem updConn_isSome {s : State} {c : Nat} {cn : Conn} {g : Conn → Bool} {f : Conn → Conn}
     (hc : s.conns[c]? = some cn) (hg : g cn = true) : (updConn s c g f).isSome = true := by
   simp [updConn, hc, hg]
@@ -37,46 +47,46 @@ theorem exists_index {α} {l : List α} {a : α} (h : a ∈ l) : ∃ i : Nat, l[
   List.mem_iff_getElem?.1 h
 
 /-- A connection task that still holds its watcher can move (or hyper can, or a handler can). -/
-theorem conn_progress {s : State} {c : Nat} {cn : Conn} (hc : s.conns[c]? = some cn)
+theorem conn_progress_drains {s : State} {c : Nat} {cn : Conn} (hc : s.conns[c]? = some cn)
     (hk : ConnOk s.cfgGraceful s.cfgBiased s.sent s.resolved s.sigReady cn)
     (hw : cn.watcher = true) (hsent : s.sent = true) (hub : Unblocked s) :
-    ∃ l, l.internal = true ∧ (step s l).isSome = true := by
+    ∃ l, l.internal = true ∧ l.drains = true ∧ (step s l).isSome = true := by
   have hacc := (hk.watcher_acc hw).1
   have hcm := mem_of_getElem? hc
   cases hcl : cn.closed with
   | true =>
-    refine ⟨.connDropWatcher c, rfl, ?_⟩
+    refine ⟨.connDropWatcher c, rfl, rfl, ?_⟩
     simp only [step]
     exact updConn_isSome hc (by simp [hcl, hw])
   | false =>
     cases hpg : cn.peerGone with
     | true =>
-      refine ⟨.connBreak c, rfl, ?_⟩
+      refine ⟨.connBreak c, rfl, rfl, ?_⟩
       simp only [step]
       exact updConn_isSome hc (by simp [hacc, hcl, hyperConnDone, hpg])
     | false =>
       cases hss : cn.sawSig with
       | false =>
-        refine ⟨.connSig c, rfl, ?_⟩
+        refine ⟨.connSig c, rfl, rfl, ?_⟩
         simp only [step]
         exact updConn_isSome hc (by simp [hacc, hcl, hw, hsent, hss])
       | true =>
         have hgrc := hk.sawSig_graceful hss
         cases hhs : cn.hs with
         | false =>
-          refine ⟨.connBreak c, rfl, ?_⟩
+          refine ⟨.connBreak c, rfl, rfl, ?_⟩
           simp only [step]
           exact updConn_isSome hc (by simp [hacc, hcl, hyperConnDone, hgrc, hhs])
         | true =>
           cases hfin : cn.final with
           | false =>
-            refine ⟨.final c, rfl, ?_⟩
+            refine ⟨.final c, rfl, rfl, ?_⟩
             simp only [step]
             exact updConn_isSome hc (by simp [hacc, hcl, hhs, hgrc, hfin])
           | true =>
             cases hset : cn.calls.all Call.settled with
             | true =>
-              refine ⟨.connBreak c, rfl, ?_⟩
+              refine ⟨.connBreak c, rfl, rfl, ?_⟩
               simp only [step]
               exact updConn_isSome hc (by simp [hacc, hcl, hyperConnDone, hfin, hset])
             | false =>
@@ -89,7 +99,7 @@ theorem conn_progress {s : State} {c : Nat} {cn : Conn} (hc : s.conns[c]? = some
               obtain ⟨⟨hst, hcan⟩, hinc⟩ := hns
               have hco := hk.calls_ok k hkm
               by_cases hlt : k.recv < k.sent.length
-              · refine ⟨.deliver c j, rfl, ?_⟩
+              · refine ⟨.deliver c j, rfl, rfl, ?_⟩
                 simp only [step]
                 exact updCall_isSome hc hj (by simp [hcl, hpg, hcan, hlt])
               · have heq : k.recv = k.sent.length := by have := hco.recv_le; omega
@@ -100,22 +110,22 @@ theorem conn_progress {s : State} {c : Nat} {cn : Conn} (hc : s.conns[c]? = some
                 have hne : k.todo ≠ [] := by
                   intro h0; simp [h0] at htodo
                 obtain ⟨hperm, hrr⟩ := hub cn hcm hcl k hkm hst hcan hne
-                refine ⟨.produce c j, rfl, ?_⟩
+                refine ⟨.produce c j, rfl, rfl, ?_⟩
                 simp only [step]
                 refine updCall_isSome hc hj ?_
                 rcases hperm with hp | hp
                 · simp [hcl, hst, hcan, hp, htodo, hrr]
                 · simp [hcl, hst, hcan, hp, htodo, hrr]
 
-theorem progress {s : State} (hg : Good s) (hgr : s.cfgGraceful = true)
+theorem progress_drains {s : State} (hg : Good s) (hgr : s.cfgGraceful = true)
     (hreq : ShutdownRequested s) (hub : Unblocked s) (hres : s.resolved = false) :
-    ∃ l, l.internal = true ∧ (step s l).isSome = true := by
+    ∃ l, l.internal = true ∧ l.drains = true ∧ (step s l).isSome = true := by
   cases hrun : s.loopRunning with
   | true =>
     have htk := hg.running_not_taken hrun
     cases hsr : s.sigReady with
     | true =>
-      exact ⟨.loopSig, rfl, by simp [step, hrun, sigBranchReady, hsr, htk]⟩
+      exact ⟨.loopSig, rfl, rfl, by simp [step, hrun, sigBranchReady, hsr, htk]⟩
     | false =>
       have hib : incomingBranch s = true := by
         simp [incomingBranch, sigBranchReady, hrun, hsr]
@@ -125,34 +135,34 @@ theorem progress {s : State} (hg : Good s) (hgr : s.cfgGraceful = true)
         · exact h
         · simp [hrun] at h
       by_cases hpe : 0 < s.pendingErrs
-      · exact ⟨.loopErr, rfl, by simp [step, hib, hpe]⟩
+      · exact ⟨.loopErr, rfl, rfl, by simp [step, hib, hpe]⟩
       · have hpe0 : s.pendingErrs = 0 := by omega
         cases hall : s.conns.all (fun cn => !cn.pending || cn.inSet) with
         | true =>
-          exact ⟨.loopEnd, rfl, by simp [step, hib, hend, hpe0, hall]⟩
+          exact ⟨.loopEnd, rfl, rfl, by simp [step, hib, hend, hpe0, hall]⟩
         | false =>
           have : ∃ cn ∈ s.conns, cn.pending = true ∧ cn.inSet = false := by simpa using hall
           obtain ⟨cn, hcn, hp, hns⟩ := this
           obtain ⟨c, hc⟩ := exists_index hcn
           cases htls : cn.tls with
           | false =>
-            refine ⟨.loopAccept c, rfl, ?_⟩
+            refine ⟨.loopAccept c, rfl, rfl, ?_⟩
             simp only [step, hib, if_true]
             exact updConn_isSome hc (by simp [hp, htls])
           | true =>
             -- a TLS connection not yet handed to the handshake set: `ServerIoStream` takes it
-            refine ⟨.tlsTake c, rfl, ?_⟩
+            refine ⟨.tlsTake c, rfl, rfl, ?_⟩
             simp only [step, hib, if_true]
             exact updConn_isSome hc (by simp [hp, htls, hns])
   | false =>
     cases had : s.afterDone with
-    | false => exact ⟨.afterLoop, rfl, by simp [step, hrun, had]⟩
+    | false => exact ⟨.afterLoop, rfl, rfl, by simp [step, hrun, had]⟩
     | true =>
       have hsent := hg.after_sent had hgr
       by_cases hw : ∃ cn ∈ s.conns, cn.watcher = true
       · obtain ⟨cn, hcn, hwt⟩ := hw
         obtain ⟨c, hc⟩ := exists_index hcn
-        exact conn_progress hc (hg.conns cn hcn) hwt hsent hub
+        exact conn_progress_drains hc (hg.conns cn hcn) hwt hsent hub
       · have h0 : receiverCount s = 0 := by
           unfold receiverCount
           rw [hg.mainRx_eq, had]
@@ -161,7 +171,13 @@ theorem progress {s : State} (hg : Good s) (hgr : s.cfgGraceful = true)
             intro cn hcn hwt
             exact hw ⟨cn, hcn, hwt⟩
           simp [this]
-        exact ⟨.resolve, rfl, by simp [step, had, hres, h0]⟩
+        exact ⟨.resolve, rfl, rfl, by simp [step, had, hres, h0]⟩
+
+theorem progress {s : State} (hg : Good s) (hgr : s.cfgGraceful = true)
+    (hreq : ShutdownRequested s) (hub : Unblocked s) (hres : s.resolved = false) :
+    ∃ l, l.internal = true ∧ (step s l).isSome = true := by
+  obtain ⟨l, hi, _, hs⟩ := progress_drains hg hgr hreq hub hres
+  exact ⟨l, hi, hs⟩
 
 /-- Iterating `progress`: from a state satisfying a property `P` that internal steps preserve and
 that guarantees progress, some finite run of internal steps reaches a resolved state. -/
